@@ -157,7 +157,15 @@ func VH_C08_SendTo() {
 	i := vNondetInt("i")
 	vAssume(0 <= k && 0 <= i && i < 4)
 	vk.S[vListenFD].WatchK = k
-	dst := &net.UDPAddr{IP: net.IP(vNondetBytes("dst.ip", 4)), Port: vNondetInt("dst.port")}
+	// the destination IPv4 address in 4-byte form or in the 16-byte IPv4-mapped form (what net.ParseIP returns)
+	ip4 := vNondetBytes("dst.ip", 4)
+	dst := &net.UDPAddr{IP: net.IP(ip4), Port: vNondetInt("dst.port")}
+	if vNondetBool("dst.ip.16byte_form") {
+		ip16 := make(net.IP, 16)
+		ip16[10], ip16[11] = 0xff, 0xff
+		copy(ip16[12:], ip4)
+		dst.IP = ip16
+	}
 	vAssume(0 <= dst.Port && dst.Port <= 65535)
 	var n int
 	var err error
@@ -169,7 +177,7 @@ func VH_C08_SendTo() {
 	s := &vk.S[vListenFD]
 	vAssert("C08.sendto.one_datagram", s.SentCount == 1 && s.SentLen == replyLen && n == replyLen && err == nil)
 	to, ok := s.SentTo.(*unix.SockaddrInet4)
-	vAssert("C08.sendto.given_address", ok && to.Port == dst.Port && to.Addr[i] == dst.IP[i])
+	vAssert("C08.sendto.given_address", ok && to.Port == dst.Port && to.Addr[i] == ip4[i])
 	if k < replyLen {
 		vAssert("C08.sendto.payload_intact", s.SentWatchB == reply[k])
 	}
